@@ -420,6 +420,19 @@ def m_map_remove(c, p, k):
     return some(ip, e[1].val)
 
 
+@model(r'^' + MAPT + r'::<.*>::(retain)::<.*>$')
+def m_map_retain(c, p, f):
+    """HashMap/BTreeMap::retain(|&K, &mut V| -> bool): keep the entries for which the closure returns true."""
+    ip = c.ip
+    m = mapobj(ip, p)
+    keep = []
+    for e in list(m.entries):
+        if ip.branch(ip.call_value(f, [Ptr(Cell(e[0], 'retain_key'), ()), Ptr(e[1], ())]), 'retain'):
+            keep.append(e)
+    m.entries[:] = keep
+    return unit()
+
+
 @model(r'^' + SETT + r'::<.*>::(remove)::<.*>$')
 def m_set_remove(c, p, k):
     ip = c.ip
@@ -707,6 +720,19 @@ def m_hasher_finish(c, h):
     if n == 0:
         return BV(64, 0x1234)
     ip.env.setdefault('hash_inputs', []).append(list(hs.items))
+    if all(x.concrete for x in hs.items):
+        # a concrete byte stream gets a concrete value (an ideal hash: distinct streams -> distinct values; SipHash collisions are
+        # outside every claim); the uninterpreted function is pinned to it so that symbolic streams stay consistent with it
+        import hashlib
+        val = int.from_bytes(hashlib.sha256(bytes(x.v for x in hs.items)).digest()[:8], 'big')
+        key = ('pinned', n, bytes(x.v for x in hs.items))
+        pins = ip.env.setdefault('hash_pins', set())
+        if key not in pins:
+            pins.add(key)
+            ip.assume(hash_uf(n)(*[x.z() for x in hs.items]) == z3.BitVecVal(val, 64))
+        r = BV(64, val)
+        ip.env['last_hash_value'] = r
+        return r
     r = bv(64, hash_uf(n)(*[x.z() for x in hs.items]))
     ip.env['last_hash_value'] = r
     return r
